@@ -203,7 +203,31 @@ def procs2(k1, k2, child=False, ntry=2):
             {"pid": 2, "kind": k2, "root": 1 if child else None, "ntry": ntry}]
 
 
-def explore(ctx, configs, max_states):
+def sym_key(raw, procs):
+    """state key up to renaming of interchangeable processes (same kind, root and budget, nobody's root): the
+    protocol treats pids uniformly, so one representative per orbit is explored"""
+    best = raw
+    cls = {}
+    rooted = {p.get("root") for p in procs}
+    for p in procs:
+        if p["pid"] not in rooted:
+            cls.setdefault((p["kind"], p.get("root"), p.get("ntry", 2)), []).append(p["pid"])
+    for group in cls.values():
+        if len(group) == 2:
+            a, b = group
+            sw = {a: b, b: a}
+            d, fs, ps, ok = raw.split("|")
+            fs2 = ",".join(str(sw.get(int(x), int(x))) for x in fs.split(",") if x)
+            ent = {}
+            for e in ps.split(","):
+                pid, loc, i = e.split(":")
+                ent[sw.get(int(pid), int(pid))] = (loc, i)
+            ps2 = ",".join("%d:%s:%s" % (pid, ent[pid][0], ent[pid][1]) for pid in sorted(ent))
+            best = min(best, "|".join([d, fs2, ps2, ok]))
+    return best
+
+
+def explore(ctx, configs, max_states, deadline=None):
     """Breadth-first over the states of the model, all configurations (label, procs) in lock step; every
     transition found is replayed on the implementation (from the empty stack, along the representative
     schedule of its source state) and compared.  Returns True when every state space was exhausted."""
@@ -211,11 +235,17 @@ def explore(ctx, configs, max_states):
     book = []
     for (label, procs), line in zip(configs, inits):
         init = parse_model(line, procs)[0]
-        book.append({"label": label, "procs": procs, "frontier": [()], "seen": {init[1]}, "last": {(): init},
+        book.append({"label": label, "procs": procs, "frontier": [()], "seen": {sym_key(init[1], procs)}, "last": {(): init},
                      "ntrans": 0, "complete": True})
+    import time
     while any(b["frontier"] for b in book):
         cand = []
         for b in book:
+            if deadline is not None and time.time() > deadline and len(b["procs"]) > 2 and b["frontier"]:
+                b["complete"] = False      # out of time: the three-process space is left to the thorough tier
+                b["frontier"] = []
+                ctx.notes.append("exhaustive exploration of %s cut short by the time budget" % b["label"])
+                continue
             pids = [p["pid"] for p in b["procs"]]
             kinds = kinds_of(b["procs"])
             for pi in b["frontier"]:
@@ -237,11 +267,12 @@ def explore(ctx, configs, max_states):
         for (b, pi), (sched, m) in zip(cand, res):
             b["ntrans"] += 1
             st = m[-1]
-            if st[1] not in b["seen"]:
+            key = sym_key(st[1], b["procs"])
+            if key not in b["seen"]:
                 if len(b["seen"]) >= max_states:
                     b["complete"] = False
                     continue
-                b["seen"].add(st[1])
+                b["seen"].add(key)
                 b["last"][pi] = st
                 b["frontier"].append(pi)
     for b in book:
@@ -496,7 +527,7 @@ def run(ctx):
         configs.append(("E+siblings-ES-ntry1",
                         [{"pid": 1, "kind": "E", "root": None, "ntry": 1}, {"pid": 2, "kind": "E", "root": 1, "ntry": 1},
                          {"pid": 3, "kind": "S", "root": 1, "ntry": 1}]))
-    complete = explore(ctx, configs, cap)
+    complete = explore(ctx, configs, cap, deadline=(ctx.t0 + 75) if ctx.tier == "quick" else None)
     ctx.exhaustive = complete
     lap("exhaustive")
     # 5. random three-process schedules
